@@ -64,6 +64,12 @@ def formatAux (args : List Str) : Str → Option Str → Str
 
 def format (template : Str) (args : List Str) : Str := formatAux args template none
 
+/-- `str(x)` / `"{0}".format(x)` of an attribute holding an `int` or `None` -/
+def strOInt : Option Int → Str
+  | none => c!"None"
+  | some (Int.ofNat n) => natToStr n
+  | some (Int.negSucc n) => '-' :: natToStr (n + 1)
+
 /-- `str(n)` of a small non-negative integer -/
 abbrev strNat (n : Nat) : Str := natToStr n
 
